@@ -579,6 +579,15 @@ def run_batch(ck, be, designs, stats, ncycles, nstores, tie=True, keep=False):
     for f in d.get('features', []): ck.hist('feature', f)
     nontrivial = j.stage == 'ok' and j.sim is not None and bool(j.cycles)
     ck.count({'label': d['label'], 'backend': be, 'src_hash': hash_text(d['src']), 'cycles': j.cycles}, nontrivial)
+    if d.get('must_reject') and j.stage in ('ok', 'syntax', 'rejected'):
+      # a design the translator has to refuse (with a message containing d['must_reject']): translating it is a violation
+      if j.stage == 'rejected' and d['must_reject'] in str(j.info):
+        stats['rejected-as-required'] = stats.get('rejected-as-required', 0) + 1
+      else:
+        V.report(j, 'accepted-untranslatable', {'what': 'a design the translator has to reject was ' + ('translated' if j.stage != 'rejected' else 'rejected for another reason'),
+                                                'required message': d['must_reject'], 'stage': j.stage, 'info': str(j.info)[:300],
+                                                'text': [l.strip() for l in (j.text or '').split('\n') if ' = ' in l][:6]})
+      if j.stage == 'rejected': continue
     if j.stage == 'syntax':
       V.report(j, 'syntax-invalid', {'what': 'the emitted text is not accepted by the IEEE 1800-2017 grammar of the emitted subset',
                                      'parser': j.info, 'oracle': 'c03_svparse (written from IEEE 1800-2017 Annex A)'})
